@@ -298,7 +298,7 @@ func (s *MemoryBackend) read(ctx context.Context, store string, filter storage.R
 	defer s.mutexTuples.RUnlock()
 
 	var matches []*storage.TupleRecord
-	if filter.Object == "" && filter.Relation == "" && filter.User == "" {
+	if filter.Object == "" && filter.Relation == "" && filter.User == "" && len(filter.Conditions) == 0 {
 		matches = make([]*storage.TupleRecord, len(s.tuples[store]))
 		copy(matches, s.tuples[store])
 	} else {
